@@ -32,6 +32,8 @@ from mc.core import HarnessError
 
 from molli.chem import (
     Atom,
+    AtomGeom,
+    AtomStereo,
     AtomType,
     CartesianGeometry,
     ConformerEnsemble,
@@ -114,7 +116,7 @@ def mkspec(kind, name, atoms, frames, fmt=None):
 
 def normspec(s):
     s = dict(s)
-    s["atoms"] = [[int(a[0]), int(a[1])] for a in s["atoms"]]
+    s["atoms"] = [[int(a[0]), int(a[1])] + ([dict(a[2])] if len(a) > 2 else []) for a in s["atoms"]]
     s["frames"] = [[[fl(c) for c in p] for p in f] for f in s["frames"]]
     return s
 
@@ -135,6 +137,18 @@ def raised_in_library(e: BaseException) -> bool:
     return last is not None and (os.sep + "molli" + os.sep) in last and (os.sep + "mc" + os.sep + "props") not in last
 
 
+def mk_atom(a):
+    """[Z, atype] or [Z, atype, {fields the xyz format does not store: isotope, label, stereo, geom, formal_charge, formal_spin, attrib}]"""
+    kw = dict(a[2]) if len(a) > 2 else {}
+    if "stereo" in kw:
+        kw["stereo"] = AtomStereo(kw["stereo"])
+    if "geom" in kw:
+        kw["geom"] = AtomGeom(kw["geom"])
+    if "attrib" in kw:
+        kw["attrib"] = dict(kw["attrib"])
+    return Atom(Element(a[0]), atype=AtomType(a[1]), **kw)
+
+
 def build(spec):
     """-> (object, reference frames, holds_spec).
     The reference for the object -> text -> object direction is what the OBJECT holds: normally exactly the
@@ -144,7 +158,7 @@ def build(spec):
     n, k = len(spec["atoms"]), len(spec["frames"])
     xyz = np.array(spec["frames"], dtype=float).reshape(k, n, 3)
     try:
-        atoms = [Atom(Element(z), atype=AtomType(t)) for z, t in spec["atoms"]]
+        atoms = [mk_atom(a) for a in spec["atoms"]]
         if kind == "E":
             obj = ConformerEnsemble(Molecule(atoms, name=spec["name"], coords=xyz[0]), n_conformers=k, coords=xyz)
         else:
@@ -477,6 +491,9 @@ def check_geom(ctx, gspec, kinds=None, edit=None, name_tag=False):
         fcls += "|after[write+grow-or-shrink]" if any(e["f"] in ("append", "extend", "add_atom", "del_atom") for e in edit["edits"]) else "|after[write+edit-in-place]"
     if name_tag:
         fcls += f"|name[{comment_class(gspec['name'])}]"
+    xf = sorted({k_ for a in gspec["atoms"] if len(a) > 2 for k_ in a[2]})
+    if xf:
+        fcls += "|atom-fields[" + ("+".join(xf) if len(xf) <= 2 else "many") + "]"
     case = {"layer": "RT", "gspec": gspec, "kinds": kinds, "edit": edit, "name_tag": name_tag}
     for sym in sorted(wcells):
         for gk, gw in product_groups(wcells[sym], 2):
@@ -505,7 +522,7 @@ def repro_rt(spec, w, r):
         "import io, numpy as np, molli as ml",
         "from molli.chem import Atom, Element, AtomType",
         "nan = float('nan')",
-        f"atoms = [Atom(Element(z), atype=AtomType(t)) for z, t in {spec['atoms']!r}]",
+        f"atoms = [Atom(Element(a[0]), atype=AtomType(a[1]), **(a[2] if len(a) > 2 else {{}})) for a in {spec['atoms']!r}]",
         f"frames = np.array({spec['frames']!r}, dtype=float).reshape({len(spec['frames'])}, len(atoms), 3)",
     ]
     if kind == "E":
@@ -919,6 +936,148 @@ def gen_RF(seed, thorough):
 
 
 # =================================================================================================
+# RS : element symbol SPELLINGS in foreign files.  The harness's own periodic table (symbol -> Z), every
+#      element x every spelling the reference tree accepts x every xyz entry point
+# =================================================================================================
+PERIODIC = (
+    "H He Li Be B C N O F Ne Na Mg Al Si P S Cl Ar K Ca Sc Ti V Cr Mn Fe Co Ni Cu Zn Ga Ge As Se Br Kr Rb Sr Y Zr Nb Mo Tc Ru Rh Pd Ag Cd In Sn Sb Te I Xe "
+    "Cs Ba La Ce Pr Nd Pm Sm Eu Gd Tb Dy Ho Er Tm Yb Lu Hf Ta W Re Os Ir Pt Au Hg Tl Pb Bi Po At Rn Fr Ra Ac Th Pa U Np Pu Am Cm Bk Cf Es Fm Md No Lr "
+    "Rf Db Sg Bh Hs Mt Ds Rg Cn Nh Fl Mc Lv Ts Og"
+).split()
+SYMBOL_OF = {0: "Unknown", **{i + 1: sym for i, sym in enumerate(PERIODIC)}}
+
+
+def spellings(z):
+    c = SYMBOL_OF[z]
+    out = {"canonical": c, "upper": c.upper(), "lower": c.lower(), "inverted-case": c.swapcase()}
+    seen, res = set(), {}
+    for k_, v in out.items():
+        if v not in seen:
+            seen.add(v)
+            res[k_] = v
+    return res
+
+
+def check_spellings(ctx, zs, mode):
+    """mode 'one': one element, an atom per spelling, two frames (second frame: spellings in reverse order);
+    mode 'all-<spelling>': every element of zs once, all in that spelling"""
+    tmp = Path(ctx.scratch) / f"c08-{os.getpid()}-s.xyz"
+    case = {"layer": "RS", "zs": list(zs), "mode": mode}
+    ctx.count(evaluations=1, states=1, traces=1)
+    ctx.nontrivial(("RS", tuple(zs), mode))
+    if mode == "one":
+        sp = spellings(zs[0])
+        rows = [(k_, v, zs[0]) for k_, v in sp.items()]
+        frames_rows = [rows, rows[::-1]]
+    else:
+        which = mode.split("-", 1)[1]
+        rows = [(which, spellings(z).get(which, SYMBOL_OF[z]), z) for z in zs]
+        frames_rows = [rows]
+    text = ""
+    for fi, rws in enumerate(frames_rows):
+        text += f"{len(rws)}\nspelling {fi}\n" + "".join(f"{v:<8} {1.5 * i + fi:.6f} {-2.0 * i:.6f} {0.25 * (i + 1):.6f}\n" for i, (_k, v, _z) in enumerate(rws))
+    tmp.write_text(text, encoding="utf-8", newline="")
+    cells, detail = {}, {}
+    for r in RF_READERS:
+        ctx.count(transitions=1)
+        cname, fn = r.split(".", 1)
+        try:
+            res = do_read(r, text, tmp)
+            if cname == "ConformerEnsemble":
+                got = [[int(a.element) for a in res.atoms]] * res.n_conformers
+                want = [[z for _k, _v, z in frames_rows[0]]] * len(frames_rows)  # an ensemble has ONE atom list
+                if len(frames_rows) == 2 and [z for *_x, z in frames_rows[0]] != [z for *_x, z in frames_rows[1]]:
+                    raise HarnessError("frames of a spelling case must hold the same elements")
+                keys = [[k_ for k_, _v, _z in frames_rows[0]]] * len(frames_rows)
+            elif "all" in fn or "yield_from" in fn:
+                got = [[int(a.element) for a in g.atoms] for g in res]
+                want = [[z for *_x, z in rws] for rws in frames_rows]
+                keys = [[k_ for k_, *_x in rws] for rws in frames_rows]
+            else:
+                got = [[int(a.element) for a in res.atoms]]
+                want = [[z for *_x, z in frames_rows[0]]]
+                keys = [[k_ for k_, *_x in frames_rows[0]]]
+        except HarnessError:
+            raise
+        except Exception as e:
+            # which spelling is rejected?  read each row alone through the same entry point
+            bad = []
+            for k_, v, z in frames_rows[0]:
+                try:
+                    do_read(r, f"1\nx\n{v} 0.0 0.0 0.0\n", _write(tmp, f"1\nx\n{v} 0.0 0.0 0.0\n"))
+                except Exception:
+                    bad.append(k_)
+            tmp.write_text(text, encoding="utf-8", newline="")
+            for k_ in sorted(set(bad)) or ["?"]:
+                cells.setdefault(f"read-raised-{exc(e)}", set()).add((k_, r))
+                detail.setdefault(f"read-raised-{exc(e)}", f"{exc(e)}: {e}")
+            continue
+        if [len(x) for x in got] != [len(x) for x in want]:
+            cells.setdefault("atom-or-frame-count-changed", set()).add(("*", r))
+            detail.setdefault("atom-or-frame-count-changed", f"{[len(x) for x in got]} atoms per frame read, {[len(x) for x in want]} written")
+            continue
+        for gf, wf, kf in zip(got, want, keys):
+            for g, w, k_ in zip(gf, wf, kf):
+                if g != w:
+                    cells.setdefault("element-changed", set()).add((k_, r))
+                    detail.setdefault("element-changed", f"symbol {spellings(w).get(k_, SYMBOL_OF[w])!r} (Z={w}, {SYMBOL_OF[w]}) read as Z={g} ({SYMBOL_OF.get(g, '?')})")
+    ctx.outcome(("RS", mode, tuple(zs)[:3], tuple(sorted(cells))))
+    allsp = ["canonical", "upper", "lower", "inverted-case"]
+    for sym in sorted(cells):
+        for gk, gr in product_groups(cells[sym], 2):
+            ctx.violation(
+                f"symbols|xyz|{sym}|spelling={','.join(k_ for k_ in allsp + ['*', '?'] if k_ in gk)}|r={_desc(gr, RF_READERS)}",
+                f"{gr[0]} of a foreign xyz text: {detail[sym]}",
+                case,
+                repro=f"import molli as ml\nfor s in {sorted(set(v for rws in frames_rows for _k, v, _z in rws))[:8]!r}:\n    print(s, ml.CartesianGeometry.loads_xyz(f'1\\nx\\n{{s}} 0 0 0\\n').atoms[0].element)",
+            )
+
+
+def _write(tmp, text):
+    tmp.write_text(text, encoding="utf-8", newline="")
+    return tmp
+
+
+def gen_RS(seed, thorough):
+    zs = rot(list(range(0, 119)), seed * 13)
+    for z in zs:
+        yield [z], "one"
+    for which in ("canonical", "upper", "lower", "inverted-case"):
+        yield zs, f"all-{which}"
+
+
+# =================================================================================================
+# RX : atoms that carry every field the xyz format does NOT store (isotope, label, stereo, geom, formal
+#      charge / spin, attrib): the text must still read back with the count, elements and coordinates
+# =================================================================================================
+def gen_RX(seed, thorough):
+    tr = triples(seed + 8, [v for v in CVALS if v == v])
+    single = [
+        (1, {"isotope": 2}),
+        (1, {"isotope": 3}),
+        (6, {"isotope": 13}),
+        (6, {"isotope": 14}),
+        (8, {"isotope": 18}),
+        (6, {"label": "C13"}),
+        (1, {"label": "D"}),
+        (7, {"formal_charge": 1}),
+        (8, {"formal_charge": -2}),
+        (6, {"formal_spin": 1}),
+        (6, {"stereo": int(AtomStereo.R)}),
+        (15, {"geom": int(AtomGeom.R5_TrigonalBipyramidal)}),
+        (6, {"attrib": {"k": "v", "n": 1}}),
+    ]
+    everything = {"isotope": 2, "label": "D1", "formal_charge": -1, "formal_spin": 1, "stereo": int(AtomStereo.S), "geom": int(AtomGeom.R1), "attrib": {"note": "x y"}}
+    atypes = [REG, int(AtomType.Aromatic), DUMMY]
+    items = [(z, REG, x) for z, x in single] + [(1, t, everything) for t in atypes] + [(6, REG, dict(everything, isotope=13))]
+    for i, a in enumerate(rot(items, seed)):
+        plain = (8, REG)
+        yield gspec("rx", [list(a)], [[tr[i % len(tr)]]])
+        yield gspec("rx", [list(plain), list(a)], [[tr[0], tr[(i + 1) % len(tr)]]])
+        yield gspec("rx", [list(a), list(plain)], [[tr[1], tr[2]], [tr[3], tr[(i + 4) % len(tr)]]])
+
+
+# =================================================================================================
 # RH : multi-frame texts whose frames are DIFFERENT geometries (same or different atom count)
 #      - per-stream state of the multi-frame reader must not leak from one frame into the next
 # =================================================================================================
@@ -1151,6 +1310,20 @@ def _part_inner(ctx, part):
             if idx == i and i < 2:
                 ctx.sample({"layer": layer, "gspec": g})
         return
+    if layer == "RS":
+        for idx, (zs, mode) in enumerate(gen_RS(seed, thorough)):
+            if idx % nparts != i:
+                continue
+            check_spellings(ctx, zs, mode)
+            ctx.add_note("cases_RS")
+        return
+    if layer == "RX":
+        for idx, g in enumerate(gen_RX(seed, thorough)):
+            if idx % nparts != i:
+                continue
+            check_geom(ctx, g)
+            ctx.add_note("cases_RX")
+        return
     if layer == "RC":
         for idx, g in enumerate(gen_RC(seed, thorough)):
             if idx % nparts != i:
@@ -1236,6 +1409,12 @@ def run(ctx):
         "object -> text -> object is judged against what the constructed OBJECT holds (normally exactly the requested values); text -> object is judged "
         "against the numbers in the file: layer RF (6 written decimals, |read - file| <= 0.5e-6 + 4 ulp, every reader of every class) and layer UNITS "
         "(units that are exact powers of ten of the Angstrom: rel. 1e-9; Bohr/au: rel. 1e-5)",
+        "layer RS (foreign files): element symbols are matched case-insensitively - canonical 'Cl', upper 'CL', lower 'cl', inverted 'cL' and 'Unknown' in any case are the "
+        "spellings the reference tree accepts for all 119 members of Element (measured when the layer was written); the expected element comes from the harness's own periodic "
+        "table; NOT accepted by the reference tree and therefore not asserted: atomic numbers as text ('17'), element names ('Chlorine'), 'X', 'Du', 'D', 'T', symbols with an index ('C1'); "
+        "'*' (dummy) is covered by layer RH",
+        "layer RX: atoms carrying fields the xyz format does not store (isotope 2/3 on H, 13/14 on C, 18 on O, label, formal charge / spin, stereo, geom, attrib, non-regular atype) "
+        "must still be written as a text that reads back with the same count, elements and coordinates",
         "layers RC/RC2 (comment line = name): comments '', ' ', TAB, padded, number-like ('3', '0'), atom-line-like ('C 0 0 0'), 300 characters, '#c' on every / the first / the "
         "last frame of single- and multi-frame texts incl. 0-atom frames (two in a row), written by molli (object names) and by the harness, with and without a terminated last line; "
         "frame count and content must be unchanged (the reader names every geometry 'unnamed': the comment itself is not compared); excluded because the reference tree's strict parser "
@@ -1265,7 +1444,7 @@ def run(ctx):
     )
     np_ = 16 if thorough else 8
     parts = []
-    for layer in ("R0", "R4", "R3", "RF", "RW", "RC", "RC2", "RH", "UNITS", "R2", "R1"):
+    for layer in ("R0", "R4", "R3", "RF", "RW", "RC", "RC2", "RS", "RX", "RH", "UNITS", "R2", "R1"):
         n = 1 if layer == "R0" else np_ * (4 if (thorough and layer in ("R1", "R2")) else 1)
         parts += [(layer, i, n) for i in range(n)]
     ctx.pmap(_part, parts)
@@ -1274,6 +1453,8 @@ def run(ctx):
 def replay(ctx, case):
     if case["layer"] == "RT":
         check_geom(ctx, normspec(case["gspec"]), kinds=case.get("kinds"), edit=case.get("edit"), name_tag=bool(case.get("name_tag")))
+    elif case["layer"] == "RS":
+        check_spellings(ctx, [int(z) for z in case["zs"]], case["mode"])
     elif case["layer"] == "RF":
         check_file(ctx, [(int(a[0]), int(a[1])) for a in case["atoms"]], case["sframes"])
     elif case["layer"] == "RH":
